@@ -318,13 +318,19 @@ def r5_agreement(ctx, f, rep, tabs):
         for i, e in enumerate(p.events):
             if e['kind'] == 'call' and e['decl'].startswith('bytes::BufMut::put_'):
                 prims.add(e['decl'])
-            if e['kind'] == 'cond' and e['expr'][0] == 'binop' and e['expr'][1] == 'Gt':
+            if e['kind'] == 'cond':
                 calls = {c['id']: c for c in p.calls()}
-                a, c = e['expr'][2], e['expr'][3]
-                if a[0] == 'call' and calls[a[1]]['res'].endswith('remaining_mut') and c[0] == 'const':
-                    rep.check(1 <= c[2] <= 2, 'C07-R5', sm.nname, 'member-count threshold `remaining_mut > c` has '
-                              '1 <= c <= 2 (room for the count; if omitted, no 3-byte custom item fits either)',
-                              site=e['span'], construct='count-threshold', facts={'c': c[2]})
+                isrem = lambda v: v[0] == 'call' and v[1] in calls and calls[v[1]]['res'].endswith('remaining_mut')
+                al = q.at_least(e, isrem)
+                am = q.at_most(e, isrem)
+                if al is not None and not am:
+                    # remaining_mut >= k on this edge: the count is written when k-1 < remaining, i.e. threshold c = k-1
+                    c_ = al[1] - 1
+                    nxt = [x for x in p.events[i + 1:i + 12] if x['kind'] == 'call' and x['decl'] == 'bytes::BufMut::put_u16']
+                    if nxt:
+                        rep.check(1 <= c_ <= 2, 'C07-R5', sm.nname, 'member-count threshold `remaining_mut > c` has '
+                                  '1 <= c <= 2 (room for the count; if omitted, no 3-byte custom item fits either)',
+                                  site=e['span'], construct='count-threshold', facts={'c': c_})
     rep.check(prims == {'bytes::BufMut::put_u16'}, 'C07-R5', sm.nname, 'send_message frames with put_u16 only',
               construct='writer-primitives', facts={'prims': sorted(prims)})
     fl = f.fn('broadcast::Broadcasts::fill_with_len_prefix')
@@ -360,10 +366,8 @@ def r5_agreement(ctx, f, rep, tabs):
             if e['kind'] == 'call' and e['decl'].startswith('bytes::Buf::get_'):
                 rp.add(e['decl'])
                 cs = q.conds_before(p, i)
-                ge2 = any(c['expr'][0] == 'binop' and c['expr'][1] == 'Ge' and c['expr'][3][0] == 'const' and
-                          c['expr'][3][2] == 2 and q.cond_truth(c) is True for c in cs)
-                notb = any(q.eq_sides(c['expr']) and any(q.is_variant(x, 'Message', 'Broadcast') for x in q.eq_sides(c['expr'])[1:])
-                           and q.cond_truth(c) != (not q.eq_sides(c['expr'])[0]) is False for c in cs)
+                isrem = lambda v: v[0] == 'call' and v[1] in calls and calls[v[1]]['res'].endswith('remaining')
+                ge2 = any((q.at_least(c, isrem) or (None, 0))[1] == 2 for c in cs)
                 nb = False
                 for c in cs:
                     es = q.eq_sides(c['expr'])
@@ -515,7 +519,7 @@ def r7_scratch(ctx, f, rep):
         for cb, bi, t in f.callers_of(lambda n_: n_ == b.nname):
             for p in ctx.paths(f, cb, 'none'):
                 for ce in p.calls():
-                    if ce['res'] == b.nname and ce['block'] == bi:
+                    if ce['res'] == b.nname and ce['tblock'] == bi:
                         kinds = {q.variant_name(a) for a in ce['args'] if q.variant_name(a) in KINDS}
                         rep.check(len(kinds) == 1 and 'Feed' not in kinds, 'C07-R7', cb.nname,
                                   'constant kind passed to %s is not Feed' % b.nname, site=ce['span'],
